@@ -14,7 +14,7 @@ MODEL_FUNCTIONS = ["accessor_to_latter_map", "latter_map_to_accessor", "accessor
                    "adjacency_matrix_to_accessor", "obtain_vertices", "obtain_leaf_vertices"]
 RULE = ("random arc subsets of the de Bruijn graph (densities 0..1, incl. the empty and the complete graph) of order 1..4 "
         "(thorough 5; adjacency matrix: order <= 3, thorough 4): latter map, round trips, matrix, vertex listing, leaf "
-        "queries of depth 0..4 from every representation; matrices with one illegal arc (thorough: EVERY single illegal "
+        "queries of depth 0..4 from every representation, and of depth up to 4k+8 on cycle-trap graphs (disjoint short cycles that keep only their cycle arc, sparse feeders; at most 400 walks); matrices with one illegal arc (thorough: EVERY single illegal "
         "arc of order 2); both-arguments / no-argument error paths of obtain_leaf_vertices.  non-trivial = graph with at "
         "least one arc and one missing arc; distinct by payload")
 TRUSTED_BASE = [
@@ -42,6 +42,20 @@ def payloads(rng, tier):
         yield "vertices", {"k": k, "rows": rows}
         v = rng.randrange(4 ** k)
         yield "leaves", {"k": k, "rows": rows, "v": v, "d": rng.randint(0, 4)}
+    # deep leaf queries on cycle-trap graphs: the front keeps visiting the same few vertices with changing multiplicities
+    for _ in range(n * 16):
+        k = rng.choice([1, 2, 2, 2, 2, 2, 2, 3, 3])
+        rows = gen.trap_graph(rng, k)
+        live = [v for v in range(4 ** k) if sum(x >= 0 for x in rows[v]) >= 2] or [v for v in range(4 ** k) if any(x >= 0 for x in rows[v])] or [0]
+        v = rng.choice(live)
+        d, ends = 0, [v]
+        dmax = rng.randint(k + 1, 4 * k + 8)
+        while d < dmax:
+            nxt = [x for u in ends for x in rows[u] if x >= 0]
+            if len(nxt) > 400:
+                break
+            ends, d = nxt, d + 1
+        yield "leaves", {"k": k, "rows": rows, "v": v, "d": d}
     for _ in range(n // 2):
         k = rng.randint(1, mmax)
         rows = gen.arc_subset(rng, k)
